@@ -40,33 +40,48 @@ func ruleArgTypes(c *Ctx) {
 				c.und(R, name, "-", "accessor not found")
 				continue
 			}
-			acc := map[string]bool{}
-			withCallees := []*ssa.Function{fn}
-			// one level of helper (CheckString → ToString …) is enough for this file
-			allInstrs(fn, func(in ssa.Instruction) {
-				if sc := staticCallee(in); sc != nil && sc.Pkg != nil && sc.Pkg.Pkg.Path() == luaPath && sc.Blocks != nil {
-					if sc == parse {
-						acc["LString→number"] = true
-					}
-					if sc == canStr || sc.Name() == "ToString" || sc.Name() == "LVAsString" {
-						acc["number→string"] = true
-					}
-					if sc.Name() == "LVAsNumber" || sc.Name() == "ToNumber" {
-						acc["LString→number"] = true
-					}
-					if len(callsTo(sc, parse)) > 0 { // a shared conversion helper (argNumber)
-						acc["LString→number"] = true
-						withCallees = append(withCallees, sc)
-					}
-				}
-			})
-			for _, g := range withCallees {
-				allInstrs(g, func(in ssa.Instruction) {
-					if ta, ok := in.(*ssa.TypeAssert); ok && ta.CommaOk {
-						acc[strings.TrimPrefix(typeName(ta.AssertedType), "lua.")] = true
+			members := map[string]bool{}
+			for _, m := range f.members {
+				members[m] = true
+			}
+			var accOf func(fn *ssa.Function, d int) map[string]bool
+			accOf = func(fn *ssa.Function, d int) map[string]bool {
+				acc := map[string]bool{}
+				withCallees := []*ssa.Function{fn}
+				// one level of helper (CheckString → ToString …) is enough for this file
+				allInstrs(fn, func(in ssa.Instruction) {
+					if sc := staticCallee(in); sc != nil && sc.Pkg != nil && sc.Pkg.Pkg.Path() == luaPath && sc.Blocks != nil {
+						if sc == parse {
+							acc["LString→number"] = true
+						}
+						// an accessor that delegates to a sibling of its family accepts what the sibling accepts
+						if d < 2 && sc != fn && members[sc.Name()] && recvNamed(sc) == "LState" {
+							for k := range accOf(sc, d+1) {
+								acc[k] = true
+							}
+						}
+						if sc == canStr || sc.Name() == "ToString" || sc.Name() == "LVAsString" {
+							acc["number→string"] = true
+						}
+						if sc.Name() == "LVAsNumber" || sc.Name() == "ToNumber" {
+							acc["LString→number"] = true
+						}
+						if len(callsTo(sc, parse)) > 0 { // a shared conversion helper (argNumber)
+							acc["LString→number"] = true
+							withCallees = append(withCallees, sc)
+						}
 					}
 				})
+				for _, g := range withCallees {
+					allInstrs(g, func(in ssa.Instruction) {
+						if ta, ok := in.(*ssa.TypeAssert); ok && ta.CommaOk {
+							acc[strings.TrimPrefix(typeName(ta.AssertedType), "lua.")] = true
+						}
+					})
+				}
+				return acc
 			}
+			acc := accOf(fn, 0)
 			var missing []string
 			for _, w := range f.want {
 				if !acc[w] {
